@@ -114,6 +114,9 @@ class HashedIterable(Generic[T]):
         """
         yield from self.values.values()
         for v in self.iterable:
+            if v.id_ in self.values:
+                # already yielded, an object that is listed more than once is the same value.
+                continue
             self.values[v.id_] = v
             yield v
 
